@@ -307,15 +307,12 @@ func (sc *Dispatch) runNamedEmptyInterface(t *core.Tape, env *Env) (any, []core.
 	side := s.Draw(2)
 	plan := map[string]any{"mode": "named-empty-interface", "leaf": fmt.Sprintf("%T", leaf), "position": pos, "side": []string{"marshal", "unmarshal"}[side]}
 	calls := 0
+	// the function declines the any-typed position itself (a *any) and accepts
+	// only a pointer to the concrete leaf type, so a call proves that the
+	// value behind the interface was looked up on its own
 	isLeaf := func(v any) bool {
 		rv := reflect.ValueOf(v)
-		for rv.Kind() == reflect.Pointer || rv.Kind() == reflect.Interface {
-			if rv.IsNil() {
-				return false
-			}
-			rv = rv.Elem()
-		}
-		return rv.Type() == reflect.TypeOf(leaf)
+		return rv.Kind() == reflect.Pointer && !rv.IsNil() && rv.Type().Elem() == reflect.TypeOf(leaf)
 	}
 	if side == 0 {
 		fn := json.MarshalToFunc(func(enc *jsontext.Encoder, v AnyLike) error {
@@ -342,34 +339,32 @@ func (sc *Dispatch) runNamedEmptyInterface(t *core.Tape, env *Env) (any, []core.
 		}
 	} else {
 		texts := []string{`true`, `"s"`, `1.5`, `{}`, `[]`}
+		marks := []any{false, "via-fn", 99.0, map[string]any{"via": "fn"}, []any{"via-fn"}}
 		fn := json.UnmarshalFromFunc(func(dec *jsontext.Decoder, v AnyLike) error {
-			if dec.PeekKind() != jsontext.Value(texts[li]).Kind() || dec.StackDepth() == 0 {
+			if !isLeaf(v) || dec.StackDepth() == 0 {
 				return errors.ErrUnsupported
 			}
 			calls++
 			if err := dec.SkipValue(); err != nil {
 				return err
 			}
-			if p, ok := v.(*any); ok {
-				*p = "via-fn"
-			}
+			reflect.ValueOf(v).Elem().Set(reflect.ValueOf(marks[li]))
 			return nil
 		})
-		var target any
-		var text, want string
+		var target, want any
+		var text string
 		switch pos {
 		case 0:
-			target, text, want = new([]any), `[`+texts[li]+`]`, `&["via-fn"]`
+			target, text, want = new([]any), `[`+texts[li]+`]`, &[]any{marks[li]}
 		case 1:
-			target, text, want = new(map[string]any), `{"k":`+texts[li]+`}`, `&{"k":"via-fn"}`
+			target, text, want = new(map[string]any), `{"k":`+texts[li]+`}`, &map[string]any{"k": marks[li]}
 		default:
-			target, text, want = new(struct{ F any }), `{"F":`+texts[li]+`}`, `&{F:"via-fn"}`
+			target, text, want = new(struct{ F any }), `{"F":`+texts[li]+`}`, &struct{ F any }{marks[li]}
 		}
 		err := json.Unmarshal([]byte(text), target, json.WithUnmarshalers(fn))
 		env.Stats.Steps++
-		got := strings.ReplaceAll(strings.ReplaceAll(renderAny(target), "(string)", ""), ` `, ``)
-		if err != nil || got != strings.ReplaceAll(want, ` `, ``) || calls != 1 {
-			viols = append(viols, core.Violationf("C17", "C17/dispatch-order", "unmarshal/named-empty-interface-func", "an UnmarshalFromFunc for a named empty interface was called %d times for %s into %T: result %s err=%v, expected %s", calls, text, target, got, classify(err), want))
+		if err != nil || !reflect.DeepEqual(target, want) || calls != 1 {
+			viols = append(viols, core.Violationf("C17", "C17/dispatch-order", "unmarshal/named-empty-interface-func", "an UnmarshalFromFunc for a named empty interface was called %d times for %s into %T: result %s err=%v, expected %s", calls, text, target, renderAny(target), classify(err), renderAny(want)))
 		}
 	}
 	env.Stats.Nontrivial = true
